@@ -2498,3 +2498,473 @@ func checkC16RuleCopy(c *Ctx) {
 		r.Bad(f.Name(), "rule stored back", f.Body.Pos(), "ConvertToCreateValues no longer stores the expanded OnConflict rule; rule lost its anchor")
 	}
 }
+
+// ---- round 9 ----
+
+// C06.stmt-slices: the per-chain slices of a Statement (Selects, Omits, Joins, BuildClauses, ...) are shared, up to
+// their length, between a reusable handle and the statements cloned from it.  Extending such a slice is safe only
+// when the result is stored back into the same field of that statement (Statement.clone gives exact-length copies,
+// so the append reallocates).  An `append` onto (a re-slice of) a Statement slice field whose result goes anywhere
+// else - a local that is filled and passed on, another statement - may write into the backing array the handle and
+// its other chains read.  Decided on SSA for packages gorm and callbacks.
+func checkC06StmtSlices(c *Ctx) {
+	p := c.P
+	r := c.Rule("C06.stmt-slices", "an append onto (a re-slice of) a Statement slice field is stored back into that same field, never into a local or another object", 5)
+	p.SSA()
+	stmtT := p.Named(pkgGorm, "Statement")
+	stT := stmtT.Underlying().(*types.Struct)
+	fieldOfLoad := func(v ssa.Value) (*ssa.FieldAddr, bool) {
+		u, ok := v.(*ssa.UnOp)
+		if !ok || u.Op != token.MUL {
+			return nil, false
+		}
+		fa, ok := u.X.(*ssa.FieldAddr)
+		if !ok {
+			return nil, false
+		}
+		st, ok := deref(fa.X.Type()).Underlying().(*types.Struct)
+		if !ok || st != stT {
+			return nil, false
+		}
+		if _, isSlice := st.Field(fa.Field).Type().Underlying().(*types.Slice); !isSlice {
+			return nil, false
+		}
+		// Vars is per-build state, handed from an outer statement to its sub-query and back while SQL is generated;
+		// its writers are decided by C01 (who-writes Statement.Vars, renumbering)
+		if st.Field(fa.Field).Name() == "Vars" {
+			return nil, false
+		}
+		return fa, true
+	}
+	var base func(v ssa.Value, seen map[ssa.Value]bool) *ssa.FieldAddr
+	base = func(v ssa.Value, seen map[ssa.Value]bool) *ssa.FieldAddr {
+		if v == nil || seen[v] {
+			return nil
+		}
+		seen[v] = true
+		if fa, ok := fieldOfLoad(v); ok {
+			return fa
+		}
+		switch x := v.(type) {
+		case *ssa.Slice:
+			// a full slice expression s[:n:n] forces reallocation on append
+			if x.Max != nil {
+				return nil
+			}
+			return base(x.X, seen)
+		case *ssa.Phi:
+			for _, e := range x.Edges {
+				if fa := base(e, seen); fa != nil {
+					return fa
+				}
+			}
+		case *ssa.ChangeType:
+			return base(x.X, seen)
+		}
+		return nil
+	}
+	for _, fn := range p.SSAFuncs() {
+		root := rootSSA(fn)
+		if fn.Blocks == nil || root.Pkg == nil {
+			continue
+		}
+		if pp := root.Pkg.Pkg.Path(); pp != pkgGorm && pp != pkgCallbacks {
+			continue
+		}
+		// Statement.clone builds the copies this rule relies on (decided by C06.clone)
+		if root.Name() == "clone" && root.Signature.Recv() != nil {
+			continue
+		}
+		forEachInstrFlat(fn, func(in ssa.Instruction) {
+			call, ok := in.(*ssa.Call)
+			if !ok {
+				return
+			}
+			bi, ok := call.Call.Value.(*ssa.Builtin)
+			if !ok || bi.Name() != "append" || len(call.Call.Args) == 0 {
+				return
+			}
+			fa := base(call.Call.Args[0], map[ssa.Value]bool{})
+			if fa == nil {
+				return
+			}
+			fname := stT.Field(fa.Field).Name()
+			// every use of the result is a store into the same field (of the same statement value)
+			okAll := call.Referrers() != nil && len(*call.Referrers()) > 0
+			for _, ref := range *call.Referrers() {
+				st, isStore := ref.(*ssa.Store)
+				if !isStore || st.Val != ssa.Value(call) {
+					okAll = false
+					continue
+				}
+				fa2, ok := st.Addr.(*ssa.FieldAddr)
+				if !ok || fa2.Field != fa.Field || !sameValue(fa2.X, fa.X) {
+					okAll = false
+				}
+			}
+			r.Check(okAll, ssaFuncName(fn), "append onto Statement."+fname, call.Pos(), "stored back into the same field", "the result of an append onto (a re-slice of) Statement."+fname+" is not stored back into that field: filling it writes into the backing array shared with the handle the statement was cloned from - chains derived from that handle later see the overwritten entries")
+		})
+	}
+}
+
+// sameValue: two SSA values denote the same object (identical, or loads of the same cell).
+func sameValue(a, b ssa.Value) bool {
+	if a == b {
+		return true
+	}
+	ua, ok1 := a.(*ssa.UnOp)
+	ub, ok2 := b.(*ssa.UnOp)
+	if ok1 && ok2 && ua.Op == token.MUL && ub.Op == token.MUL {
+		if ua.X == ub.X {
+			return true
+		}
+		fa, ok1 := ua.X.(*ssa.FieldAddr)
+		fb, ok2 := ub.X.(*ssa.FieldAddr)
+		if ok1 && ok2 && fa.Field == fb.Field {
+			return sameValue(fa.X, fb.X)
+		}
+	}
+	return false
+}
+
+// C05.loop-error: an error that a step inside a loop assigns to a variable living OUTSIDE the loop must be looked at
+// before the next iteration can overwrite it.  Decided for packages gorm and callbacks: for every assignment in a
+// for/range body whose target is an error-typed variable declared outside that loop and whose value comes from a call
+// (or a call's .Error), the loop body reads the variable after the assignment (a test, AddError, return, break
+// condition).  Otherwise a failure of an earlier element is overwritten by the success of a later one and the
+// operation reports success although part of it failed.
+func checkC05LoopError(c *Ctx) {
+	p := c.P
+	r := c.Rule("C05.loop-error", "an error assigned inside a loop to a variable that outlives the iteration is read before the next iteration", 1)
+	for _, f := range p.FuncsOf(pkgGorm, pkgCallbacks) {
+		if f.Body == nil {
+			continue
+		}
+		info := f.Pkg.TypesInfo
+		parents := parentMap(f.Body)
+		ast.Inspect(f.Body, func(n ast.Node) bool {
+			if fl, ok := n.(*ast.FuncLit); ok && fl != f.Lit {
+				return false
+			}
+			as, ok := n.(*ast.AssignStmt)
+			if !ok || as.Tok == token.DEFINE {
+				return true
+			}
+			for i, l := range as.Lhs {
+				id, ok := unparen(l).(*ast.Ident)
+				if !ok || id.Name == "_" {
+					continue
+				}
+				obj, _ := info.ObjectOf(id).(*types.Var)
+				if obj == nil || obj.Type().String() != "error" {
+					continue
+				}
+				// value from a call
+				var rhs ast.Expr
+				if len(as.Rhs) == len(as.Lhs) {
+					rhs = as.Rhs[i]
+				} else if len(as.Rhs) == 1 {
+					rhs = as.Rhs[0]
+				}
+				hasCall := false
+				ast.Inspect(rhs, func(m ast.Node) bool {
+					if _, ok := m.(*ast.CallExpr); ok {
+						hasCall = true
+					}
+					return true
+				})
+				if !hasCall {
+					continue
+				}
+				// innermost enclosing loop within this function
+				var loop ast.Stmt
+				var body *ast.BlockStmt
+				for cur := parents[as]; cur != nil && loop == nil; cur = parents[cur] {
+					switch x := cur.(type) {
+					case *ast.ForStmt:
+						loop, body = x, x.Body
+					case *ast.RangeStmt:
+						loop, body = x, x.Body
+					case *ast.FuncLit:
+						cur = nil
+					}
+					if cur == nil {
+						break
+					}
+				}
+				if loop == nil || (obj.Pos() >= loop.Pos() && obj.Pos() < loop.End()) {
+					continue // not in a loop, or declared per iteration
+				}
+				// named results are read by every return
+				read := false
+				ast.Inspect(body, func(m ast.Node) bool {
+					switch x := m.(type) {
+					case *ast.Ident:
+						if info.Uses[x] == obj && x.Pos() > as.End() {
+							// not merely another assignment target
+							if pa, ok := parents[x].(*ast.AssignStmt); ok {
+								for _, l2 := range pa.Lhs {
+									if l2 == ast.Expr(x) {
+										return true
+									}
+								}
+							}
+							read = true
+						}
+					case *ast.ReturnStmt:
+						if x.Pos() > as.End() && len(x.Results) == 0 {
+							read = true // bare return of named results
+						}
+					}
+					return true
+				})
+				// the loop's own condition / an if-init on the same statement
+				if fs, ok := loop.(*ast.ForStmt); ok && fs.Cond != nil {
+					ast.Inspect(fs.Cond, func(m ast.Node) bool {
+						if x, ok := m.(*ast.Ident); ok && info.Uses[x] == obj {
+							read = true
+						}
+						return true
+					})
+				}
+				if ifs, ok := parents[as].(*ast.IfStmt); ok && ifs.Init == ast.Stmt(as) {
+					read = true // `if err = f(); err != nil`
+				}
+				c.Touch(f)
+				r.Check(read, f.Name(), "error kept across iterations in "+id.Name, as.Pos(), "read before the next iteration", "an error is assigned inside a loop to `"+id.Name+"`, which is declared outside the loop, and is not looked at before the next iteration: a later successful element overwrites the failure and the operation reports success although part of it failed")
+			}
+			return true
+		})
+	}
+}
+
+// C01.expr-copy: an Expr / NamedExpr whose SQL text is derived from the text of ANOTHER expression or statement
+// (`Y.SQL`, e.g. "DISTINCT " + expr.SQL) contains that text's placeholders; it must carry Y's bound values
+// (`Vars: Y.Vars`), otherwise the placeholders stay in the SQL, nothing is bound for them and later values shift.
+// Editing Y.SQL in place keeps the pairing by construction.  Decided over all packages of the repository.
+func checkC01ExprCopy(c *Ctx) {
+	p := c.P
+	r := c.Rule("C01.expr-copy", "an expression built from another expression's SQL text carries that expression's Vars", 2)
+	exprT, nexprT := p.Named(pkgClause, "Expr"), p.Named(pkgClause, "NamedExpr")
+	for _, f := range p.FuncsOf(pkgGorm, pkgCallbacks, pkgClause, pkgMigrator, pkgSchema) {
+		if f.Body == nil {
+			continue
+		}
+		info := f.Pkg.TypesInfo
+		// the text of another expression that flows into e through concatenation and pure string helpers; a text that
+		// is handed to some other function first (Dialector.Explain resolves the placeholders) does not count
+		var sqlSource func(e ast.Expr) string
+		sqlSource = func(e ast.Expr) string {
+			switch x := unparen(e).(type) {
+			case *ast.BinaryExpr:
+				if s := sqlSource(x.X); s != "" {
+					return s
+				}
+				return sqlSource(x.Y)
+			case *ast.SelectorExpr:
+				if x.Sel.Name == "SQL" {
+					if s := info.Selections[x]; s != nil && s.Kind() == types.FieldVal {
+						return canon(info, x.X)
+					}
+				}
+			case *ast.CallExpr:
+				name := calleeName(info, x)
+				if strings.HasPrefix(name, "strings.") || strings.HasPrefix(name, "fmt.Sprint") {
+					for _, a := range x.Args {
+						if s := sqlSource(a); s != "" {
+							return s
+						}
+					}
+					return ""
+				}
+				if sel, ok := x.Fun.(*ast.SelectorExpr); ok && sel.Sel.Name == "String" && len(x.Args) == 0 {
+					return sqlSource(sel.X)
+				}
+			}
+			return ""
+		}
+		ast.Inspect(f.Body, func(n ast.Node) bool {
+			if fl, ok := n.(*ast.FuncLit); ok && fl != f.Lit {
+				return false
+			}
+			switch x := n.(type) {
+			case *ast.CompositeLit:
+				t := derefNamed(info.TypeOf(x))
+				if t != exprT && t != nexprT {
+					return true
+				}
+				sqlV := compositeField(x, "SQL")
+				if sqlV == nil {
+					return true
+				}
+				if d := resolveLocal(f, sqlV); d != nil {
+					sqlV = d
+				}
+				y := sqlSource(sqlV)
+				if y == "" {
+					return true
+				}
+				c.Touch(f)
+				vars := compositeField(x, "Vars")
+				okv := vars != nil && canon(info, vars) == y+".Vars"
+				r.Check(okv, f.Name(), "expression built from "+y+".SQL", x.Pos(), "Vars: "+y+".Vars", "an expression is built from the SQL text of "+y+" without "+y+".Vars: the placeholders of that text stay in the statement but their values are not bound - later values shift onto them")
+			case *ast.AssignStmt:
+				for i, l := range x.Lhs {
+					sel, ok := unparen(l).(*ast.SelectorExpr)
+					if !ok || sel.Sel.Name != "SQL" || i >= len(x.Rhs) {
+						continue
+					}
+					t := derefNamed(info.TypeOf(sel.X))
+					if t != exprT && t != nexprT {
+						continue
+					}
+					if y := sqlSource(x.Rhs[i]); y != "" {
+						c.Touch(f)
+						r.Check(y == canon(info, sel.X), f.Name(), "SQL text edited from "+y+".SQL", x.Pos(), "in place: the Vars stay with the text", "the SQL text of one expression is replaced by text derived from another expression ("+y+") while its own Vars stay: placeholders and bound values no longer belong together")
+					}
+				}
+			}
+			return true
+		})
+	}
+}
+
+// C02.and-wrap: BuildCondition's group arm turns a LONE OrConditions of a sub-builder into AndConditions without
+// looking at its members - correct because such a lone OrConditions can only be the chained form `.Or(x)` (one
+// member): clause.And keeps every other single expression bare but never hands back an OrConditions unwrapped...
+// more precisely clause.And(x) returns x itself only when x is NOT an OrConditions.  Decided by truth table of the
+// guard of that return: with "x is an OrConditions" true the guard is false for every value of the other atoms.
+func checkC02AndWrap(c *Ctx) {
+	p := c.P
+	r := c.Rule("C02.and-wrap", "clause.And returns a single expression unwrapped only when it is not an OrConditions", 1)
+	f := p.FuncDecl(pkgClause, "And")
+	c.Touch(f)
+	info := f.Pkg.TypesInfo
+	orT := p.Named(pkgClause, "OrConditions")
+	n := 0
+	ast.Inspect(f.Body, func(x ast.Node) bool {
+		ifs, ok := x.(*ast.IfStmt)
+		if !ok {
+			return true
+		}
+		// if <v>, ok := exprs[0].(OrConditions); <cond> { return exprs[0] }
+		as, ok := ifs.Init.(*ast.AssignStmt)
+		if !ok || len(as.Lhs) != 2 || len(as.Rhs) != 1 {
+			return true
+		}
+		ta, ok := unparen(as.Rhs[0]).(*ast.TypeAssertExpr)
+		if !ok || ta.Type == nil || !types.Identical(info.TypeOf(ta.Type), orT) {
+			return true
+		}
+		okName := ""
+		if id, ok := as.Lhs[1].(*ast.Ident); ok {
+			okName = id.Name
+		}
+		returnsBare := false
+		ast.Inspect(ifs.Body, func(y ast.Node) bool {
+			if rs, ok := y.(*ast.ReturnStmt); ok && len(rs.Results) == 1 && canon(info, rs.Results[0]) == canon(info, ta.X) {
+				returnsBare = true
+			}
+			return true
+		})
+		if !returnsBare || okName == "" {
+			return true
+		}
+		n++
+		bf := boolTable(info, ifs.Cond)
+		okf := false
+		if bf.has(okName) {
+			okf, _ = bf.forAll(map[string]bool{okName: true}, false)
+		}
+		r.Check(okf, f.Name(), "single expression returned unwrapped", ifs.Pos(), "never for an OrConditions", "clause.And can return a single OrConditions unwrapped: the group arm of BuildCondition converts a lone OrConditions of a sub-builder into AndConditions whatever its members, so the group `(a OR b)` is rendered `(a AND b)`")
+		return true
+	})
+	if n == 0 {
+		// no bare return at all: every single expression stays wrapped
+		r.OK(f.Name(), "no unwrapped return", f.Body.Pos(), "clause.And always wraps")
+	}
+}
+
+// C03.map-rows: Create from a slice of maps builds one value list per column; the value of row i has to stand at
+// position i of every list (rows may lack keys other rows have).  Decided in ConvertSliceOfMapToValuesForCreate:
+// inside the loop over the rows every store into a per-column list is an index store at the loop's own index, and
+// no list is extended with append.
+func checkC03MapRows(c *Ctx) {
+	p := c.P
+	r := c.Rule("C03.map-rows", "slice-of-maps create: the value of row i is stored at index i of its column list", 1)
+	f := p.FuncDecl(pkgCallbacks, "ConvertSliceOfMapToValuesForCreate")
+	c.Touch(f)
+	info := f.Pkg.TypesInfo
+	// the rows parameter: []map[string]interface{}
+	var rows types.Object
+	for _, fl := range f.Decl.Type.Params.List {
+		for _, nm := range fl.Names {
+			if o := info.Defs[nm]; o != nil {
+				if sl, ok := o.Type().Underlying().(*types.Slice); ok {
+					if _, ok := sl.Elem().Underlying().(*types.Map); ok {
+						rows = o
+					}
+				}
+			}
+		}
+	}
+	var loop *ast.RangeStmt
+	ast.Inspect(f.Body, func(n ast.Node) bool {
+		if rs, ok := n.(*ast.RangeStmt); ok && loop == nil {
+			if id, ok := unparen(rs.X).(*ast.Ident); ok && info.Uses[id] == rows {
+				loop = rs
+			}
+		}
+		return true
+	})
+	if rows == nil || loop == nil {
+		r.Bad(f.Name(), "row loop", f.Body.Pos(), "no loop over the rows found; rule lost its anchor")
+		return
+	}
+	idx := loopVar(info, loop)
+	n, bad := 0, 0
+	var where token.Pos = loop.Pos()
+	ast.Inspect(loop.Body, func(x ast.Node) bool {
+		as, ok := x.(*ast.AssignStmt)
+		if !ok || len(as.Lhs) != 1 || len(as.Rhs) != 1 {
+			return true
+		}
+		// target: M[k][i] = v   or   M[k] = <expr>
+		lhs := unparen(as.Lhs[0])
+		ix, ok := lhs.(*ast.IndexExpr)
+		if !ok {
+			return true
+		}
+		// per-column list map: map[string][]interface{}
+		isListMap := func(e ast.Expr) bool {
+			mt, ok := info.TypeOf(e).Underlying().(*types.Map)
+			if !ok {
+				return false
+			}
+			_, isSl := mt.Elem().Underlying().(*types.Slice)
+			return isSl
+		}
+		switch {
+		case isListMap(ix.X):
+			// M[k] = ... : only a fresh list of the rows' length, never an append
+			if ce, ok := unparen(as.Rhs[0]).(*ast.CallExpr); ok {
+				if id, ok := ce.Fun.(*ast.Ident); ok && id.Name == "append" {
+					n++
+					bad++
+					where = as.Pos()
+				}
+			}
+		default:
+			if inner, ok := unparen(ix.X).(*ast.IndexExpr); ok && isListMap(inner.X) {
+				n++
+				iid, ok := unparen(ix.Index).(*ast.Ident)
+				if !ok || idx == nil || info.ObjectOf(iid) != idx {
+					bad++
+					where = as.Pos()
+				}
+			}
+		}
+		return true
+	})
+	r.Check(n > 0 && bad == 0, f.Name(), "cell of row i", where, "stored at index i of its column list", "a cell value of a slice-of-maps create is not stored at the row's own index of its column list (appended, or indexed by something else): when rows have different key sets the values of a sparse column slide into other rows")
+}
